@@ -202,6 +202,8 @@ func main() {
 		segv[os.Args[2]]()
 	case "chan":
 		chanProbes()
+	case "assert":
+		runAsserts() // generated: props/C03/assertgen.py
 	}
 	println("end", mode)
 }
